@@ -67,6 +67,35 @@ def search(payload):
             if sent != (tup(v) >= tup(thr)):
                 return {'found': True, 'input': (name, f'board {v}', f'needs {thr}'), 'observed': f'writes {port.writes}',
                         'expected': 'command sent' if tup(v) >= tup(thr) else 'command not sent', 'tried': tried}
+        # devices that never reported a firmware version: silent, foreign text, a bare number without the label
+        for (name, call, thr, cmd), reply in itertools.product(feats, (None, b'hello\r\n', b'3.1.4\r\n', b'300\r\n', b'OK\r\n', b'!8 Err: unknown\r\n', 'EXC')):
+            tried += 1
+
+            def respond(data, _r=reply):
+                t = data.decode().strip()
+                if t.upper() == 'V':
+                    return [] if _r is None else [_r]
+                if t.startswith('Q'):
+                    return [b'1,300\r\n', b'OK\r\n']
+                return [b'OK\r\n']
+            port = FakePort([], responder=respond)
+            for verbose_kw in ({}, {'verbose': False}) if name == 'query_nickname' else ({},):
+                try:
+                    if name == 'query_nickname':
+                        ebb_serial.query_nickname(port, **verbose_kw)
+                    else:
+                        call(port)
+                except Exception as ex:   # noqa
+                    return {'found': True, 'input': (name, f'device replies {reply!r} to V'), 'observed': f'raised {type(ex).__name__}: {ex}', 'expected': 'no exception', 'tried': tried}
+                if cmd in port.writes:
+                    return {'found': True, 'input': (name, f'device replies {reply!r} to V (no firmware version reported)', verbose_kw), 'observed': f'writes {port.writes}',
+                            'expected': 'gated command not sent', 'tried': tried}
+        # query_nickname with verbose=False on old firmware
+        for v in ('2.5.4', '2.4.10', '2.5.5'):
+            port = legacy_port(v)
+            ebb_serial.query_nickname(port, verbose=False)
+            if (b'QT\r' in port.writes) != (tup(v) >= tup('2.5.5')):
+                return {'found': True, 'input': ('query_nickname(verbose=False)', f'board {v}'), 'observed': f'writes {port.writes}', 'expected': 'QT only from 2.5.5 on', 'tried': tried}
     else:
         good = board('3.0.2')
         scen = []
